@@ -57,6 +57,14 @@ func verifParamInt(name string) int64 {
 	return v
 }
 
+// verifParamIntOr: an optional integer parameter.
+func verifParamIntOr(name string, def int64) int64 {
+	if _, ok := verifCur.Params[name]; !ok {
+		return def
+	}
+	return verifParamInt(name)
+}
+
 func verifParamStr(name string) string {
 	v, ok := verifCur.Params[name]
 	if !ok {
@@ -388,7 +396,8 @@ func verifBigInv(z *BigInt) bool {
 	}
 	bits := z._inner.Bits()
 	if len(bits) == 0 {
-		return z._inner.Sign() == 0
+		// a heap zero must not carry the sign flag (math/big's Sign hides it, Cmp does not)
+		return z._inner.Cmp(new(big.Int)) == 0 && new(big.Int).Cmp(z._inner) == 0
 	}
 	return bits[len(bits)-1] != 0
 }
